@@ -5,6 +5,7 @@ fails, and the instrumented segment loop computes exactly what the plain model c
 import KitModel.Enc
 import KitModel.EncChk
 import KitProofs.Lemmas.EncReader
+import KitProofs.Lemmas.EncLoop
 
 namespace Kit.Enc.Chk
 open Kit Kit.Enc
@@ -471,5 +472,123 @@ theorem decryptO_eq (cap nonceLen : Nat) (c : Crypto) (cd : Codec) (P : EncParam
             rw [processSegmentsO_eq cap (P.segSize + P.overhead) P.maxSeg hcap2 _ _
               (fun d i l _ _ => decryptSegO_eq c P nonceLen m.cph _ m.np (hn m.np) (ho _ m.np) d i l) r']
             rfl
+
+
+/-! ### termination: the fuel of the model loops is never exhausted -/
+
+theorem runSegs_term_ne_fuel (m : Nat) (fn : ProcFn) (hfn : ∀ d i l, fn d i l ≠ .error .fuel)
+    (fin : Terminal) (hfin : fin ≠ .err .fuel) :
+    ∀ (segs : List (Bytes × Bool)) (i : Nat), (runSegs m fn segs i fin).term ≠ .err .fuel := by
+  intro segs
+  induction segs with
+  | nil => intro i; simpa [runSegs] using hfin
+  | cons a t ih =>
+    intro i
+    obtain ⟨d, l⟩ := a
+    simp only [runSegs]
+    cases hf : fn d i l with
+    | error e =>
+      simp only []
+      intro h; cases h; exact hfn d i l hf
+    | ok o =>
+      simp only []
+      split
+      · simp
+      · split
+        · simp
+        · simpa [PSResult.cons] using ih (i + 1)
+
+/-- The inner read loop leaves by its own exit condition (buffer full, or the source reported its end
+    or a failure), never because the model's fuel ran out: `r.measure + 1` iterations always suffice. -/
+theorem fill_exits (fuel : Nat) (r : Reader) (limit : Nat) (buf : Bytes) (hf : r.measure < fuel)
+    (hb : buf.length ≤ limit) :
+    (fill fuel r limit buf).2.1 ≠ .none ∨ (fill fuel r limit buf).1.length = limit := by
+  have hs := fill_spec fuel r limit buf hf hb
+  by_cases hA : limit - buf.length < r.stream.length ∨ (limit - buf.length = r.stream.length ∧ r.D = false)
+  · right
+    obtain ⟨_, e2, _⟩ := hs.1 hA
+    rw [e2]
+    simp only [List.length_append, List.length_take]
+    rcases hA with h | ⟨h, _⟩ <;> omega
+  · by_cases h0 : limit - buf.length = 0
+    · right
+      have : ¬ buf.length < limit := by omega
+      have hfe : fill fuel r limit buf = (buf, .none, r) := by
+        cases fuel with
+        | zero => omega
+        | succ f => unfold fill; simp [this]
+      rw [hfe]; simp; omega
+    · left
+      have hB : r.stream.length < limit - buf.length ∨
+          (r.stream.length = limit - buf.length ∧ r.D = true ∧ 0 < limit - buf.length) := by
+        by_cases hD : r.D = true
+        · by_cases h : r.stream.length = limit - buf.length
+          · right; exact ⟨h, hD, by omega⟩
+          · left
+            have : ¬ (limit - buf.length < r.stream.length) := fun h' => hA (Or.inl h')
+            omega
+        · have hD' : r.D = false := by simpa using hD
+          left
+          have h1 : ¬ (limit - buf.length < r.stream.length) := fun h' => hA (Or.inl h')
+          have h2 : ¬ (limit - buf.length = r.stream.length) := fun h' => hA (Or.inr ⟨h', hD'⟩)
+          omega
+      obtain ⟨e1, _⟩ := hs.2 hB
+      rw [e1]; exact Term.res_ne_none _
+
+theorem hdrScan_ne_fuel (scheme : Bytes) : ∀ (bs : Bytes) (st : HdrState), hdrScan scheme st bs ≠ .error .fuel := by
+  intro bs
+  induction bs with
+  | nil => intro st; simp [hdrScan]
+  | cons b t ih =>
+    intro st
+    simp only [hdrScan]
+    cases hs : hdrStep scheme st b with
+    | error e =>
+      simp only []
+      intro h; cases h
+      unfold hdrStep at hs
+      repeat' split at hs
+      all_goals cases hs
+    | ok st' => exact ih st'
+
+/-- The header loop ends by its own conditions within `r.measure + 1` iterations. -/
+theorem hdrLoop_ne_fuel (scheme : Bytes) (hdrMax : Nat) : ∀ (fuel : Nat) (r : Reader) (n : Nat) (st : HdrState),
+    r.measure < fuel → n ≤ hdrMax → hdrLoop scheme hdrMax fuel r n st ≠ .error .fuel := by
+  intro fuel
+  induction fuel with
+  | zero => intro r n st h; omega
+  | succ fuel ih =>
+    intro r n st hf hn
+    unfold hdrLoop
+    by_cases h3 : st.newlines ≥ 3
+    · simp [h3]
+    · simp only [h3, if_false]
+      by_cases hfull : n = hdrMax
+      · simp [hfull]
+      · simp only [hfull, if_false]
+        have hm : 0 < hdrMax - n := by omega
+        rcases r.read_cases (hdrMax - n) hm with hnone | hend
+        · obtain ⟨hres, _, hlen, hmeas, _, _, _⟩ := hnone
+          generalize r.read (hdrMax - n) = x at *
+          obtain ⟨chunk, res, r'⟩ := x
+          simp only at hres hlen hmeas ⊢
+          subst hres
+          cases hsc : hdrScan scheme st chunk with
+          | error e =>
+            simp only []
+            intro h; cases h; exact hdrScan_ne_fuel scheme chunk st hsc
+          | ok st' =>
+            simp only [if_true]
+            exact ih r' (n + chunk.length) st' (by omega) (by omega)
+        · obtain ⟨hres, _, _, _, _, _, _, _⟩ := hend
+          generalize r.read (hdrMax - n) = x at *
+          obtain ⟨chunk, res, r'⟩ := x
+          simp only at hres ⊢
+          have hne : res ≠ .none := by rw [hres]; exact Term.res_ne_none _
+          cases hsc : hdrScan scheme st chunk with
+          | error e =>
+            simp only []
+            intro h; cases h; exact hdrScan_ne_fuel scheme chunk st hsc
+          | ok st' => simp [hne]
 
 end Kit.Enc.Chk
